@@ -14,8 +14,9 @@ namespace Mofun.Lmp
     the writer — declares exactly the structure's numbers of atoms, bonds, angles, dihedrals, impropers; its type
     counts are `num_*_types`, each line present iff the count is positive; the box is `0 … length` per axis and the
     tilt line is present iff the cell is not orthorhombic, in the order `xy xz yz` = `cell[1,0] cell[2,0] cell[2,1]`
-    (all at the printed precision).  And (labels without `#`, coefficient strings with at most one `#`) the reader's
-    loop finds in each section exactly as many rows as the header declares / as the structure has entries. -/
+    (all at the printed precision).  And the reader's loop finds in each section exactly as many rows as the header
+    declares / as the structure has entries (no guard either: the reader splits a line at its first `#` only, so labels
+    and coefficient strings may contain any number of `#`). -/
 theorem lmp_header_counts (a : Atoms) (st : Style) :
     let hdr := headerOf (saveLines a st)
     (declared ["atoms"] hdr = some a.atoms.length
@@ -36,8 +37,7 @@ theorem lmp_header_counts (a : Atoms) (st : Style) :
     ∧ declaredTilt hdr = (match a.cell with
         | some m => if m.isOrtho then none else some (quantMicro m.b.x, quantMicro m.c.x, quantMicro m.c.y)
         | none => none)
-    ∧ (labelsNoHash a = true → coeffsOneHash a = true →
-        ∃ c d, run {} (saveLines a st) = .ok ⟨c, false, d⟩
+    ∧ (∃ c d, run {} (saveLines a st) = .ok ⟨c, false, d⟩
           ∧ d.atoms.length = a.atoms.length ∧ d.masses.length = a.typeMasses.length
           ∧ d.bonds.length = a.bonds.terms.length ∧ d.angles.length = a.angles.terms.length
           ∧ d.dihedrals.length = a.dihedrals.terms.length ∧ d.impropers.length = a.impropers.terms.length
@@ -48,15 +48,15 @@ theorem lmp_header_counts (a : Atoms) (st : Style) :
   have hh : hdr = headerLines a := headerOf_saveLines a st
   rw [hh]
   refine ⟨declared_counts a, declared_types a, declared_box a, declared_tilt a, ?_⟩
-  intro h1 h2
-  obtain ⟨c, hr⟩ := run_saveLines a st h1 h2
+  obtain ⟨c, hr⟩ := run_saveLines a st
   refine ⟨c, finalData a st, hr, ?_⟩
   simp [fd_atoms, fd_masses, fd_bonds, fd_angles, fd_dihedrals, fd_impropers, fd_pair, fd_bond, fd_angle, fd_dihedral,
     fd_improper, numbered_length, termLines, coeffLines]
 
-/-- **lmp_roundtrip** (full style).  For every structure in the guard `LmpOk` (≥ 1 atom; one label per mass; labels
-    without `#`, line break, outer blanks; coefficient strings with at most one `#` and no line break; cell absent or
-    LAMMPS-oriented with lengths that print positive; well-formed term tuples; atom types that have a label) and every
+/-- **lmp_roundtrip** (full style).  For every structure in the guard `LmpOk` (any number of atoms, also none; one label
+    per mass; labels without line break or outer blanks; coefficient strings without line break — `#` is allowed in both,
+    any number of times; cell absent or LAMMPS-oriented with lengths that print positive; well-formed term tuples; atom
+    types that have a label) and every
     element-guessing function: the writer succeeds and the reader, run on exactly the lines written, returns `norm a`. -/
 theorem lmp_roundtrip (guess : List Rat → Option (List String)) (a : Atoms) (h : LmpOk a = true) :
     ∃ lines, saveLmp a .full = .ok lines ∧ loadLmp guess lines .full = .ok (norm guess .full a) :=
@@ -129,6 +129,15 @@ theorem lmp_write_read_write (guess : List Rat → Option (List String)) (st : S
   have r2 := roundtrip guess (norm guess st a) st h'
   rw [norm_idem] at r2
   exact ⟨_, _, _, _, _, r1.1, r1.2, r2.1, r2.2, r2.1, rfl, rfl⟩
+
+/-- **lmp_masses_by_id.**  A Masses line binds its mass and its label to ITS type id: what the reader builds from the
+    accumulated lines is the same for every order in which the Masses lines came (no id twice).  Files written by
+    `saveLmp` list them in ascending order, for which the sorting is the identity (`sort_masses`). -/
+theorem lmp_masses_by_id (guess : List Rat → Option (List String)) (d : PData) (st : Style)
+    (ms : List (Int × String × Option String)) (hp : d.masses.Perm ms)
+    (hdistinct : ∀ x ∈ d.masses, ∀ y ∈ d.masses, x.1 = y.1 → x = y) :
+    finish guess { d with masses := ms } st = finish guess d st :=
+  finish_masses_perm guess d st ms hp hdistinct
 
 /-- a number that is already at the printed precision is not changed by the trip -/
 theorem quant_of_grid (μ : Int) : quant (ofMicro μ) = ofMicro μ := by
@@ -224,7 +233,17 @@ def exC13 : Atoms :=
     cell := some ⟨⟨10, 0, 0⟩, ⟨-5/2, 9, 0⟩, ⟨1/4, -3/4, 12⟩⟩ }
 
 example : LmpOk exC13 = true := by decide +kernel
-example : labelsNoHash exC13 = true ∧ coeffsOneHash exC13 = true := by decide +kernel
+/-- the guard admits a `#` in labels and several `#` in a coefficient string, and a structure without atoms that keeps
+    its type tables; for those too the trip gives `norm` -/
+def exC13Hash : Atoms :=
+  { exC13 with typeLabels := ["C#1", "#H # x"], pairCoeffs := ["0.1 3.4 # C # 1 #", "#"] }
+def exC13Empty : Atoms :=
+  { exC13 with atoms := [], bonds := ⟨[], exC13.bonds.coeffs, []⟩, angles := ⟨[], exC13.angles.coeffs, []⟩ }
+example : LmpOk exC13Hash = true ∧ LmpOk exC13Empty = true := by decide +kernel
+example : (norm (fun _ => none) .full exC13Hash).typeLabels = ["C#1", "#H # x"]
+    ∧ (norm (fun _ => none) .full exC13Hash).pairCoeffs = ["0.1 3.4   # C # 1 #", "   # "] := by decide +kernel
+example : (norm (fun _ => some ["C", "H"]) .full exC13Empty).atoms = []
+    ∧ (norm (fun _ => some ["C", "H"]) .full exC13Empty).typeLabels = ["C 1", "H"] := by decide +kernel
 example : (saveLines exC13 .full).length = 50 := by decide +kernel
 /-- the tilt line: `xy xz yz` -/
 example : (saveLines exC13 .full)[14]? = some ⟨["-2.500000", "0.250000", "-0.750000", "xy", "xz", "yz"], none⟩ := by
